@@ -56,6 +56,7 @@ def alphabet(with_exists=True):
     A.append(ev(file_name="f", file_bytes=b"x", mime_type="text/plain; charset=utf8"))
     A.append(ev(file_name="f", file_bytes=b"y", mime_type=None, eof=True))
     A.append(ev(file_name="f", file_bytes=b""))
+    A.append(ev(test_tags=frozenset({"u"}), file_name="f", file_bytes=b""))  # (tags arriving with an empty chunk)
     A.append(ev(file_name="g", file_bytes=b"\xffz", mime_type="application/octet-stream"))
     A.append(ev("b", file_name="f", file_bytes=b"q"))
     A.append(ev(timestamp=T2))
